@@ -216,7 +216,8 @@ func c05Cases(level int) []SCase {
 		}
 	}
 	// fractional bounds on integers (a handful: the current implementation truncates them, listed finding INT_BOUND_TRUNCATED)
-	for _, fb := range []J{{"minimum": 1.5}, {"maximum": 7.5}, {"minimum": 1.5, "maximum": 7.5}, {"minimum": -4.5, "maximum": -1.5}, {"exclusiveMinimum": 1.5}, {"exclusiveMaximum": 7.5}} {
+	for _, fb := range []J{{"minimum": 1.5}, {"maximum": 7.5}, {"minimum": 1.5, "maximum": 7.5}, {"minimum": -4.5, "maximum": -1.5}, {"exclusiveMinimum": 1.5}, {"exclusiveMaximum": 7.5},
+		{"minimum": 1.5, "exclusiveMinimum": true}, {"maximum": 7.5, "exclusiveMaximum": true}, {"minimum": -4.5, "exclusiveMinimum": true, "maximum": 7.5, "exclusiveMaximum": true}} {
 		l := J{"type": "integer"}
 		name := "integer-fractional"
 		for _, k := range space.SortedKeys(fb) {
